@@ -127,6 +127,44 @@ def add_edge_templates(rng, mdl):
     walk(mdl["circuit"])
 
 
+def gen_shared_template(rng):
+    """two node types, 3-5 nodes, and ONE edge template shared by projections between a mixture of types: some target type receives template edges
+    from both source types and some source type feeds both target types (the merged edge operator is entered and left through several grouped projections)"""
+    def leaky(name, v, rate, gain):
+        return {"name": name, "eqs": [{"lhs": v, "de": True, "rhs": M.add(M.mul(M.num(-1), M.mul(M.var(rate), M.var(v))), M.mul(M.var(gain), M.var("r_in")))}],
+                "vars": {v: {"decl": "output", "value": "1"}, rate: {"decl": "const", "value": "1"}, gain: {"decl": "const", "value": "1"}, "r_in": {"decl": "input", "value": "0"}}}
+    ops = {"OA": leaky("opa", "x", "a", "k"), "OB": leaky("opb", "z", "b", "g")}
+    nA, nB = rng.choice([(2, 1), (2, 2), (3, 1), (3, 2)])
+    nts, nodes = {}, {}
+    for i in range(nA):
+        nts[f"A{i}"] = {"name": f"ta{i}", "ops": ["OA"], "overrides": {"OA": {"x": str(F(rng.randint(-4, 4), 2)), "a": str(F(rng.choice([0, 1, 2]), 2)), "k": str(F(rng.choice([1, 2, -1]), 2))}}}
+        nodes[f"a{i}"] = f"A{i}"
+    for i in range(nB):
+        nts[f"B{i}"] = {"name": f"tb{i}", "ops": ["OB"], "overrides": {"OB": {"z": str(F(rng.randint(-4, 4), 2)), "b": str(F(rng.choice([0, 1, 2]), 2)), "g": str(F(rng.choice([1, 2, -1]), 2))}}}
+        nodes[f"b{i}"] = f"B{i}"
+    out = lambda n: f"{n}/opa/x" if n.startswith("a") else f"{n}/opb/z"
+    inp = lambda n: f"{n}/opa/r_in" if n.startswith("a") else f"{n}/opb/r_in"
+    names = sorted(nodes)
+    A, B = [n for n in names if n[0] == "a"], [n for n in names if n[0] == "b"]
+    pairs = {(A[0], A[1]), (A[1], B[0]), (B[0], A[0])}          # A->A, A->B, B->A
+    cand = [(s_, t_) for s_ in names for t_ in names if s_ != t_ and (s_, t_) not in pairs]
+    for pr in rng.sample(cand, rng.randint(0, min(3, len(cand)))):
+        pairs.add(pr)
+    edges = []
+    for s_, t_ in sorted(pairs):
+        e = {"src": out(s_), "tgt": inp(t_), "w": str(F(rng.choice([1, 2, 3, -1, -3]), rng.choice([1, 2])))}
+        if (s_, t_) in {(A[0], A[1]), (A[1], B[0]), (B[0], A[0])} or rng.random() < 0.6:
+            e["template"] = "TA"
+            e["values"] = {"ea": str(F(rng.choice([1, 2, 3, -1, 5]), rng.choice([1, 2])))}
+        edges.append(e)
+    rng.shuffle(edges)
+    mdl = {"ops": ops, "node_templates": nts, "circuit": {"name": "net", "nodes": nodes, "edges": edges}}
+    mdl["ops"]["EA"] = {"name": "eop", "eqs": [{"lhs": "eo", "de": False, "rhs": M.mul(M.var("ea"), M.var("s_in"))}],
+                        "vars": {"eo": {"decl": "output", "value": "0"}, "ea": {"decl": "const", "value": "2"}, "s_in": {"decl": "input", "value": "0"}}}
+    mdl["edge_templates"] = {"TA": {"name": "etA", "op": "EA"}}
+    return mdl
+
+
 def gen_case(rng, tier):
     for _ in range(80):
         r0 = rng.random()
@@ -143,6 +181,8 @@ def gen_case(rng, tier):
         elif r0 < 0.52:
             from .c06 import gen_bound_case
             mdl, special = gen_bound_case(rng, tier)["mdl"], "bound-edge"
+        elif r0 < 0.60:
+            mdl, special = gen_shared_template(rng), "shared-template"
         else:
             mdl = G.gen_model(rng, max_nodes=6, min_nodes=2, linear=True, clones=True, depth=rng.choice([0, 0, 0, 1]), hostile=rng.random() < 0.5)
         if not sparse and not special and rng.random() < 0.35:
